@@ -46,6 +46,9 @@ func reference(b hx.Behaviour, po hx.PubOutcome, withPub bool) expect {
 	case hx.BNackErr, hx.BNackPanic:
 		e.settle = "nacked"
 		return e
+	case hx.BAckAsyncErr:
+		e.settle = "acked or nacked, not both" // whichever of the two settlements comes first stands
+		return e
 	}
 	// chain returned (outputs, nil)
 	if nout > 0 && withPub {
@@ -248,7 +251,11 @@ func body(sp spec) {
 		e := reference(iv.b, po, sp.WithPub)
 		got := hx.SettlementOf(d.Msg)
 		summary += fmt.Sprintf("%s:%s/%d=%s ", d.UUID, iv.b, po, got)
-		if got != e.settle {
+		if e.settle == "acked or nacked, not both" {
+			if got != "acked" && got != "nacked" {
+				vs.Fail("settlement", "message %s, handler behaviour %q: settled %q, expected exactly one of acked / nacked", d.UUID, iv.b, got)
+			}
+		} else if got != e.settle {
 			vs.Fail("settlement", "message %s, handler behaviour %q, publisher outcome %d (called=%v), with publisher=%v: settled %q, expected %q", d.UUID, iv.b, po, called, sp.WithPub, got, e.settle)
 		}
 		cs := callFor[d.UUID]
